@@ -304,6 +304,31 @@ func genC12(rt *rapid.T, st *Stats) *Case {
 		L := rapid.IntRange(2, 5).Draw(rt, "L")
 		W := rapid.IntRange(6, 12).Draw(rt, "W")
 		n, ies = genLayered(rt, L, W, rapid.IntRange(W, 3*W).Draw(rt, "per_gap"), rapid.IntRange(0, 6).Draw(rt, "long"))
+	case "xwide":
+		// two or three layers of 65..80 nodes: positions >= 64 inside a layer (bit-mask style thresholds; seeded/r2-m12)
+		// (kept just above the threshold and sparse: 80-wide layers with 1.5 edges per node took 37 s in the ordering phase)
+		L := rapid.IntRange(2, 3).Draw(rt, "L")
+		W := rapid.IntRange(65, 72).Draw(rt, "W")
+		n = L*W + 1
+		root := L * W
+		for k := 0; k < W; k++ { // a root above the first wide layer keeps everything in one component
+			ies = append(ies, iedge{root, k})
+		}
+		for l := 0; l+1 < L; l++ {
+			match := rapid.Permutation(iota_(W)).Draw(rt, "matching") // every node of both layers gets an edge
+			for k := 0; k < W; k++ {
+				ies = append(ies, iedge{l*W + k, (l+1)*W + match[k]})
+			}
+			// enough extra edges that some crossings are unavoidable, also among the high positions
+			for k := rapid.IntRange(W/4, W/2).Draw(rt, "more"); k > 0; k-- {
+				ies = append(ies, iedge{l*W + pick(rt, "xu", W), (l+1)*W + pick(rt, "xl", W)})
+			}
+		}
+		perm := rapid.Permutation(iota_(n)).Draw(rt, "relabel")
+		for i := range ies {
+			ies[i] = iedge{perm[ies[i][0]], perm[ies[i][1]]}
+		}
+		ies = rapid.Permutation(ies).Draw(rt, "edge_order")
 	case "deep":
 		// kept narrow: a 70 x 3 ladder costs about a second, 80 x 5 with 11 edges per gap ran for minutes in the ordering phase
 		L := rapid.IntRange(65, 80).Draw(rt, "L")
@@ -317,6 +342,9 @@ func genC12(rt *rapid.T, st *Stats) *Case {
 		poss = sizeAwarePos
 	}
 	lays := allLay
+	if regime == "xwide" {
+		lays = []int{LayNS, LayLP}
+	}
 	if regime == "deep" {
 		lays = []int{LayNS, LayNS, LayNS, LayLP}
 	}
@@ -397,6 +425,13 @@ func checkC12(c *Case) *Outcome {
 		}
 	}
 	o.classIf(wide, "wide(layer with >=6 nodes)")
+	xw := false
+	for _, k := range cnt {
+		if k >= 65 {
+			xw = true
+		}
+	}
+	o.classIf(xw, "xwide(layer with >=65 nodes)")
 	o.NonTrivial = drawn >= 1 && maxBands >= 3
 	return o
 }
@@ -406,6 +441,13 @@ func TestC12(t *testing.T) { runGenerated(t, propC12) }
 // TestC12Deep runs the deep regime only (about 0.5-1 s per case), with its own small case count.
 func TestC12Deep(t *testing.T) {
 	os.Setenv("VERIF_C12_REGIME", "deep")
+	defer os.Unsetenv("VERIF_C12_REGIME")
+	runGenerated(t, propC12)
+}
+
+// TestC12XWide runs the very wide regime only (layers of 65..80 nodes), with its own small case count.
+func TestC12XWide(t *testing.T) {
+	os.Setenv("VERIF_C12_REGIME", "xwide")
 	defer os.Unsetenv("VERIF_C12_REGIME")
 	runGenerated(t, propC12)
 }
